@@ -134,7 +134,7 @@ const PROGS: [Prog; 15] = [
 ];
 
 /// names the expansion introduces for its own locals / generics, raw keywords, prelude names
-const GEN_NAMES: [&str; 22] = ["H", "T", "this", "other", "state", "f", "rhs", "source", "lhs", "o", "to_index", "_eq", "_f", "l_0", "_self_0", "_other_0", "hash", "cmp", "eq", "partial_cmp", "value", "_0"];
+const GEN_NAMES: [&str; 27] = ["H", "T", "this", "other", "state", "f", "rhs", "source", "lhs", "o", "to_index", "_eq", "_f", "l_0", "_self_0", "_other_0", "hash", "cmp", "eq", "partial_cmp", "value", "_0", "builder", "DeriveExEqCheck", "derive_ex_eq_check", "derive_ex_debug_ref", "placeholder"];
 const RAW_NAMES: [&str; 3] = ["r#type", "r#fn", "r#match"];
 const PRELUDE_NAMES: [&str; 14] = ["Option", "Some", "None", "Eq", "Fn", "Clone", "Ordering", "Result", "Default", "Ok", "Vec", "Box", "Sized", "Copy"];
 const LIFETIMES: [&str; 4] = ["a", "b", "__x", "r#fn"];
@@ -166,6 +166,10 @@ fn names_for(role: Role, thorough: bool) -> Vec<String> {
             v.extend(RAW_NAMES.iter().map(|s| s.to_string()));
             if thorough || role != Role::Field {
                 v.extend(PRELUDE_NAMES.iter().map(|s| s.to_string()));
+            }
+            if role == Role::Field {
+                // the sibling field's name with leading underscores (`p` next to `_p`, `q` next to `__q`)
+                v.extend(["_p", "__p", "_q", "__q"].iter().map(|s| s.to_string()));
             }
         }
     }
